@@ -109,10 +109,8 @@ class UserFields(object):
         all_fields = self.document.getElementsByType(UserFieldDecl)
         for f in all_fields:
             value_type = f.getAttribute(u'valuetype')
-            if value_type == u'string':
-                value = f.getAttribute(u'stringvalue')
-            else:
-                value = f.getAttribute(u'value')
+            value_attr = VALUE_TYPES.get(value_type, (OFFICENS, u'value'))
+            value = f.getAttrNS(value_attr[0], value_attr[1])
             field_name = f.getAttribute(u'name')
 
             if field_names is None or field_name in field_names:
@@ -172,9 +170,8 @@ class UserFields(object):
             if field_name in data:
                 value_type = f.getAttribute(u'valuetype')
                 value = data.get(field_name)
-                if value_type == u'string':
-                    f.setAttribute(u'stringvalue', value)
-                else:
-                    f.setAttribute(u'value', value)
+                # each value type keeps its value in its own attribute
+                value_attr = VALUE_TYPES.get(value_type, (OFFICENS, u'value'))
+                f.setAttrNS(value_attr[0], value_attr[1], value)
         self.savedoc()
 
